@@ -17,7 +17,9 @@ COQ_SHARD = 200
 REPLAY_KIND = 'input'
 EXHAUSTIVE = {'quick': False, 'thorough': False}
 IMPL_TIMEOUT = 1500
-RULE = ('programs: 1..3 threads, each running one hub.doInTransaction(body) on a FILE-backed sqlite database (timeout 0); body = 0..5 steps '
+RULE = ('programs: 1..3 threads, each with a HISTORY on a FILE-backed sqlite database (timeout 0): one hub.doInTransaction(body), or (40% of the '
+        'random cases, plus seeded families) up to four items -- doInTransaction calls and ORDINARY writes through the hub outside any call '
+        '(create / assignment to / destroySelf of an instance loaded at the start / deleteMany), often "failing call, ordinary write, failing call"; body = 0..5 steps '
         'create / update a column of row id / delete row id (fetched inside the body; ids inside and outside the table) / assignment to and '
         'destroySelf of instances loaded BEFORE the call / class-level deleteMany, mixed or with nothing created or fetched inside the body, '
         'and optionally a raise; for every seeded body '
@@ -26,12 +28,14 @@ RULE = ('programs: 1..3 threads, each running one hub.doInTransaction(body) on a
         'process-level binding (one caller, other threads only asked what the hub holds), BOTH (thread connections and a different process '
         'connection) and mixed (some threads without a connection of their own fall back to the process one; at most one of them calls).  After every scheduling step: committed table via an independent '
         'DB-API connection, in every thread its raw thread-local slot, the raw process slot and hub.getConnection() (identity of the objects), '
-        'phase/result/transaction state of every thread.  '
-        'Non-trivial = a body with at least one write that ran to its raise or to its commit; distinct = distinct (binding, table, bodies, schedule).')
+        'phase/result/transaction state of every thread, the outcome of its last ordinary write.  '
+        'Non-trivial = a body with at least one write that ran to its raise or to its commit, or an ordinary write carried out; distinct = distinct (binding, table, histories, schedule).')
 EXPLANATION = ('Theorems C08_* (Coq, all bodies / all raise points / all schedules) over Model/Hub.v, a hand model of ConnectionHub.getConnection/'
                'doInTransaction with sqlite locking between the threads\' transactions; correspondence: the model evaluated by vm_compute against '
                'the real SQLObject driven by real threads after EVERY scheduling step; the oracle judges all-or-nothing, exception identity, hub '
-               'restoration and release of the transaction directly on the observations.')
+               'restoration and release of the transaction directly on the observations, and for histories: an ordinary write is in the '
+               'committed table at once, the table changes in no other step than a returning call or a successful ordinary write (so a later '
+               'failing call leaves it exactly as it was before that call).')
 TRUSTED_BASE = [
     'Coq 8.16.1 kernel + vm_compute (examples, correspondence); no native_compute',
     'Model/Hub.v is hand-written after ConnectionHub.getConnection/doInTransaction/threadConnection, Transaction.__init__/commit/rollback/'
@@ -42,6 +46,10 @@ TRUSTED_BASE = [
     'the body steps go through an eager two-column class bound to the hub (Cls(...), Cls.get(id).col = v, Cls.get(id).destroySelf()); '
     'the instance caches of the connections are not part of this model (C07 has them) except that get() of an id the transaction already '
     'holds sends no SELECT',
+    'ordinary writes between the calls (histories) are create / assignment to or destroySelf of an instance loaded at the start / '
+    'deleteMany by a thread that is outside any call; in mixed bindings only one thread without a connection of its own has a history '
+    '(an ordinary write of another one would go into the caller\'s transaction: not modelled, plain_step answers XNested); reads outside '
+    'the calls are not part of the histories (the parent connection\'s instance cache is not in this model)',
     'scheduling granularity is one body step: a step that raises is followed in the same scheduling step by rollback and the finally clause '
     '(no other thread runs in between); finer interleavings inside a step are not explored',
     '"released" is observed as: Transaction._connection is None and the DB-API connection it held is closed or back in the parent\'s pool',
@@ -78,13 +86,34 @@ def setup_class():
     return _state['cls'], _state['hub']
 
 
+# ------------------------------------------------------------------ histories
+def progs(case):
+    """per thread its history: items ['call', body] (one hub.doInTransaction(body)) and ['plain', step] (an ordinary write through
+    the hub outside any doInTransaction).  Cases written before histories existed give one call per thread ('bodies')"""
+    if 'progs' in case:
+        return case['progs']
+    return [[['call', b]] for b in case['bodies']]
+
+
+def calls_of(prog):
+    return [it[1] for it in prog if it[0] == 'call']
+
+
+def plains_of(prog):
+    return [it[1] for it in prog if it[0] == 'plain']
+
+
+def ticks_of(prog):
+    return sum((len(it[1]) + 2) if it[0] == 'call' else 1 for it in prog)
+
+
 # ------------------------------------------------------------------ hub configurations
 def hubcfg(case):
     """(slots, proc, nconn): per thread the index of the DBConnection bound as its threadConnection (or None), the index of the
     one bound as processConnection (or None), how many DBConnection objects there are.  Labels: 'thread' = every thread its own,
     no process connection; 'process' = only a process connection; 'both' = every thread its own AND a different process
     connection; 'mixed' = explicit 'slots'/'proc' (some threads without a connection of their own fall back to the process one)"""
-    n = len(case['bodies'])
+    n = len(progs(case))
     if 'slots' in case:
         slots, proc = list(case['slots']), case.get('proc')
     elif case['mode'] == 'thread':
@@ -156,7 +185,90 @@ def prefix_variants(rows, body):
     return out
 
 
+def gen_plain(rng, nrows):
+    """an ordinary write outside any doInTransaction: a new row, an assignment to / destroySelf of an instance loaded at the
+    start, a class-level delete"""
+    r = rng.random()
+    if nrows == 0 or r < 0.45:
+        return ['create', rng.choice(VALS), rng.choice(VALS)]
+    if r < 0.75:
+        return ['hupdate', rng.randint(1, nrows), rng.randint(0, 1), rng.choice(VALS)]
+    if r < 0.88:
+        return ['hdestroy', rng.randint(1, nrows)]
+    return ['deletemany', rng.randint(1, nrows + 1)]
+
+
+def failing(rng, body):
+    if not any(s[0] == 'fail' for s in body):
+        body = list(body)
+        body.insert(rng.randint(0, len(body)), ['fail', rng.randint(0, 3)])
+    return body
+
+
+def historize(rng, c):
+    """turn the one-call-per-thread case into histories: every calling thread goes on after its first doInTransaction with
+    ordinary writes and further calls (often: failing call, ordinary write, failing call)"""
+    slots, proc, _ = hubcfg(c)
+    nrows = len(c['rows'])
+    out = []
+    sched = list(c['sched'])
+    for t, body in enumerate(c['bodies']):
+        watcher = (c['mode'] == 'process' and t > 0) or (c['mode'] == 'mixed' and slots[t] is None and not body)
+        if watcher:
+            out.append([])
+            continue
+        r = rng.random()
+        if r < 0.4:
+            prog = [['call', failing(rng, body)], ['plain', gen_plain(rng, nrows)],
+                    ['call', failing(rng, gen_body(rng, nrows, maxlen=3))]]
+            if rng.random() < 0.4:
+                prog.append(['plain', gen_plain(rng, nrows)])
+        else:
+            prog = [['call', body]]
+            if rng.random() < 0.3:
+                prog.insert(0, ['plain', gen_plain(rng, nrows)])
+            for _ in range(rng.randint(1, 3)):
+                if rng.random() < 0.55:
+                    prog.append(['plain', gen_plain(rng, nrows)])
+                else:
+                    b = gen_body(rng, nrows, maxlen=3)
+                    prog.append(['call', failing(rng, b) if rng.random() < 0.4 else b])
+        out.append(prog)
+        for _ in range(ticks_of(prog) - (len(body) + 2)):
+            sched.insert(rng.randint(0, len(sched)), t)
+    c['progs'] = out
+    c['sched'] = sched
+    del c['bodies']
+    return c
+
+
+def history_variants(rows, body, w):
+    """failing call / ordinary write w / failing call, the calls raising after every prefix of the body, by one caller under each
+    kind of binding"""
+    out = []
+    plain = [s for s in body if s[0] != 'fail']
+    for mode in ('thread', 'process', 'mixed'):
+        for k in range(len(plain) + 1):
+            b = plain[:k] + [['fail', k % 4]] + plain[k:]
+            prog = [['call', b], ['plain', w], ['call', b], ['plain', w]]
+            c = {'mode': mode, 'rows': rows, 'progs': [prog] if mode == 'thread' else [prog, []], 'sched': [0] * (ticks_of(prog) + 1)}
+            if mode == 'mixed':
+                c['slots'], c['proc'] = [0, None], 1
+            out.append(c)
+    for k, c in enumerate(out):
+        c['cache'] = k % 2 == 0
+        c['poison'] = [None] * len(c['progs'])
+    return out
+
+
 def gen_case(rng):
+    c = gen_case1(rng)
+    if rng.random() < 0.4:
+        historize(rng, c)
+    return c
+
+
+def gen_case1(rng):
     c = gen_case0(rng)
     c['cache'] = rng.random() < 0.5
     c['poison'] = [None] * len(c['bodies'])
@@ -259,6 +371,18 @@ def corpus():
     out.append({'mode': 'process', 'rows': rows, 'cache': True, 'poison': [None, None],
                 'bodies': [[['update', 1, 0, 5], ['hdestroy', 1], ['update', 1, 1, 2], ['hupdate', 2, 0, 8], ['fail', 2]], []],
                 'sched': [0] * 7})
+    # histories (seeded defect c08_autocommit_restored_only_on_commit): a failing call, an ordinary write outside any call, a
+    # failing call again -- the ordinary write is durable at once and the second failure leaves the table as it was before it
+    out += history_variants(rows, [['create', 3, 3], ['update', 1, 0, 9]], ['create', 8, 8])
+    out += history_variants(rows, [['hupdate', 1, 0, 60], ['deletemany', 2]], ['hupdate', 2, 1, 70])
+    out.append({'mode': 'thread', 'rows': rows, 'cache': True, 'poison': [None, None],
+                'progs': [[['call', [['create', 3, 3], ['fail', 0]]], ['plain', ['create', 4, 4]], ['call', [['delete', 1], ['fail', 1]]]],
+                          [['plain', ['hupdate', 1, 0, 9]], ['call', [['update', 2, 1, 6]]], ['plain', ['hdestroy', 1]]]],
+                'sched': [0, 1, 0, 0, 1, 0, 1, 0, 1, 0, 0, 1, 0, 1]})
+    # an ordinary write while another thread's transaction holds the write lock is refused at once, nothing is written
+    out.append({'mode': 'thread', 'rows': rows, 'cache': True, 'poison': [None, None],
+                'progs': [[['call', [['update', 1, 0, 5], ['create', 3, 3]]]], [['plain', ['create', 4, 4]], ['plain', ['create', 5, 5]]]],
+                'sched': [0, 0, 1, 0, 0, 1]})
     return out
 
 
@@ -268,6 +392,10 @@ def generate(rng, tier):
     for k in range(40 if tier == 'quick' else 400):
         rows = gen_rows(rng)
         out += prefix_variants(rows, gen_body(rng, len(rows), allow_fail=False, held_only=(k % 3 == 0 and len(rows) > 0)))
+    for k in range(8 if tier == 'quick' else 80):
+        rows = gen_rows(rng)
+        out += history_variants(rows, gen_body(rng, len(rows), maxlen=3, allow_fail=False, held_only=(k % 3 == 0 and len(rows) > 0)),
+                                gen_plain(rng, len(rows)))
     return out
 
 
@@ -275,6 +403,9 @@ def search_cases(rng, tier):
     out = [gen_case(rng) for _ in range(1500)]
     for _ in range(60):
         out += prefix_variants(gen_rows(rng), gen_body(rng, 3, allow_fail=False))
+    for _ in range(20):
+        rows = gen_rows(rng)
+        out += history_variants(rows, gen_body(rng, len(rows), maxlen=3, allow_fail=False), gen_plain(rng, len(rows)))
     return out
 
 
@@ -283,7 +414,8 @@ EXC = {'UserErr': 'XUser', 'SQLObjectNotFound': 'XNotFound', 'OperationalError':
 
 
 class Worker(threading.Thread):
-    """runs hub.doInTransaction(body) when told to, one body step per 'step' command; answers 'probe' at any time"""
+    """works through its history when told to -- one 'step' command = entering a doInTransaction, one body step, its commit, or
+    one ordinary write outside; answers 'probe' at any time"""
 
     def poison(self):
         """make the parent connection hold an instance of row `pid` on which expire() raises: its reload raised not-found
@@ -320,6 +452,9 @@ class Worker(threading.Thread):
         self.low = None
         self.same = None
         self.keep = []
+        self.todo = [list(it) for it in shared['progs'][idx]]
+        self.cur_body = []
+        self.ncalls, self.nplain, self.last_plain = 0, 0, None
 
     def token(self, c):
         """which object is it: one of the DBConnections, or the Transaction captured by a worker"""
@@ -353,7 +488,8 @@ class Worker(threading.Thread):
             except AttributeError:
                 info = [False, False]          # what the body saw as "the hub's connection" was no Transaction at all
         return {'resolve': tok, 'slot': raw_slot, 'proc': self.token(getattr(hub, 'processConnection', None)),
-                'phase': self.phase, 'result': self.result, 'tx': info, 'same': self.same}
+                'phase': self.phase, 'result': self.result, 'tx': info, 'same': self.same,
+                'ncalls': self.ncalls, 'nplain': self.nplain, 'last_plain': self.last_plain}
 
     def wait(self):
         """inside the body: serve probes until the controller releases the next step"""
@@ -370,7 +506,7 @@ class Worker(threading.Thread):
         self.low = getattr(self.tx, '_connection', None)
         self.phase = 'run'
         created = []
-        for k, st in enumerate(self.sh['bodies'][self.idx]):
+        for k, st in enumerate(self.cur_body):
             self.rep.put('tick')
             if self.wait() != 'step':
                 raise Abort()
@@ -409,6 +545,32 @@ class Worker(threading.Thread):
         self.returned = True
         return created
 
+    def plain(self, st):
+        """an ordinary write through the hub, outside any doInTransaction"""
+        cls = self.sh['cls']
+        try:
+            v = []
+            if st[0] == 'create':
+                o = cls(a=st[1], b=st[2])
+                v = [o.id]
+                self.keep.append(o)
+                del o
+            elif st[0] == 'hupdate':
+                setattr(self.held[st[1]], COLS[st[2]], st[3])
+            elif st[0] == 'hdestroy':
+                self.held[st[1]].destroySelf()
+            elif st[0] == 'deletemany':
+                cls.deleteMany(cls.q.id == st[1])
+            else:
+                raise RuntimeError('not an ordinary write: %r' % (st,))
+            return ['ret', v]
+        except Exception as e:  # noqa
+            name = type(e).__name__
+            code = EXC.get(name, 'OTHER:' + name)
+            if code == 'XAttribute':
+                code = 'XNoConnection'
+            return ['exc', code, 0, 0]
+
     def run(self):
         cls, hub = self.sh['cls'], self.sh['hub']
         if self.sh['slots'][self.idx] is not None:
@@ -426,9 +588,17 @@ class Worker(threading.Thread):
             elif c == 'quit':
                 break
             elif c == 'step':
-                if self.phase != 'idle':
+                if not self.todo:
                     self.rep.put('tick')
                     continue
+                kind, what = self.todo.pop(0)
+                if kind == 'plain':
+                    self.last_plain = self.plain(what)
+                    self.nplain += 1
+                    self.rep.put('tick')
+                    continue
+                self.cur_body = what
+                self.tx, self.low, self.same, self.result = None, None, None, None
                 self.raised, self.k, self.returned = None, 0, False
                 try:
                     v = hub.doInTransaction(self.body)
@@ -440,9 +610,10 @@ class Worker(threading.Thread):
                         # raised by the body? no: before the body was entered, or after it returned
                         code = 'XNoConnection' if self.tx is None else ('XCommit' if self.returned else 'OTHER:AttributeError')
                     self.result = ['exc', code, (self.sh['errors'].index(e) if code == 'XUser' and e in self.sh['errors'] else 0),
-                                   (len(self.sh['bodies'][self.idx]) if code == 'XCommit' else self.k)]
+                                   (len(self.cur_body) if code == 'XCommit' else self.k)]
                     self.same = (self.raised is e) if self.raised is not None else None
                 self.phase = 'done'
+                self.ncalls += 1
                 self.rep.put('tick')
         # hand the DB-API connections of this thread back
         if self.sh['slots'][self.idx] is not None:
@@ -467,7 +638,7 @@ def run_case(case, workdir):
     from sqlobject.sqlite.sqliteconnection import SQLiteConnection
     cls, hub = setup_class()
     fn = os.path.join(workdir, 't.db')
-    n = len(case['bodies'])
+    n = len(progs(case))
     setupc = SQLiteConnection(fn, timeout=0)
     cls.createTable(connection=setupc)
     raw = sqlite3.connect(fn, timeout=0, isolation_level=None)
@@ -479,7 +650,7 @@ def run_case(case, workdir):
     conns = [SQLiteConnection(fn, timeout=0, cache=cache) for _ in range(nconn)]
     if proc is not None:
         hub.processConnection = conns[proc]
-    shared = {'cls': cls, 'hub': hub, 'conns': conns, 'bodies': case['bodies'], 'mode': case['mode'], 'fn': fn,
+    shared = {'cls': cls, 'hub': hub, 'conns': conns, 'progs': progs(case), 'mode': case['mode'], 'fn': fn,
               'slots': slots, 'proc': proc, 'nrows': len(case['rows']),
               'poison': case.get('poison') or [None] * n,
               'errors': [UserErr('e%d' % i) for i in range(4)], 'workers': []}
@@ -598,11 +769,13 @@ def cresult(r):
 
 
 def cthread(t):
-    ph = {'idle': 'VIdle', 'run': 'VRun'}.get(t['phase'])
+    ph = {'idle': '(VDone (Return []) None)', 'run': 'VRun'}.get(t['phase'])     # idle = no call yet
     if ph is None:
         x = 'None' if t['tx'] is None else '(Some (%s, %s))' % (cb(t['tx'][0]), cb(t['tx'][1]))
         ph = '(VDone %s %s)' % (cresult(t['result']), x)
-    return '{| b_slot := %s; b_resolve := %s; b_phase := %s |}' % (cref(t.get('slot')), cref(t['resolve']), ph)
+    lp = t.get('last_plain')
+    return '{| b_slot := %s; b_resolve := %s; b_phase := %s; b_plain := %s |}' % (
+        cref(t.get('slot')), cref(t['resolve']), ph, 'None' if lp is None else '(Some %s)' % cresult(lp))
 
 
 def cobs(o):
@@ -612,11 +785,12 @@ def cobs(o):
 
 def coq_case(case, obs):
     sched = '; '.join('(%d%%nat, %s)' % (t, cobs(o)) for t, o in zip(case['sched'], obs['steps']))
-    bodies = '; '.join('[%s]' % '; '.join(cstep(s) for s in b) for b in case['bodies'])
-    poison = '; '.join('None' if x is None else '(Some %s)' % z(x) for x in (case.get('poison') or [None] * len(case['bodies'])))
+    citem = lambda it: ('(ICall [%s])' % '; '.join(cstep(s) for s in it[1])) if it[0] == 'call' else '(IPlain %s)' % cstep(it[1])  # noqa
+    bodies = '; '.join('[%s]' % '; '.join(citem(it) for it in p) for p in progs(case))
+    poison = '; '.join('None' if x is None else '(Some %s)' % z(x) for x in (case.get('poison') or [None] * len(progs(case))))
     slots, proc, _ = hubcfg(case)
     optn = lambda x: 'None' if x is None else '(Some %d%%nat)' % x  # noqa
-    return '{| c_slots := [%s]; c_proc := %s; c_table := %s; c_bodies := [%s]; c_broken := [%s]; c_sched := [%s] |}' % (
+    return '{| c_slots := [%s]; c_proc := %s; c_table := %s; c_progs := [%s]; c_broken := [%s]; c_sched := [%s] |}' % (
         '; '.join(optn(x) for x in slots), optn(proc), ctab(obs['initial']['table']), bodies, poison, sched)
 
 
@@ -658,7 +832,8 @@ def oracle(case, obs):
 def failures(case, obs):
     prev = obs['initial']
     slots, proc, _ = hubcfg(case)
-    n = len(case['bodies'])
+    P = progs(case)
+    n = len(P)
     db = lambda x: None if x is None else ['db', x]  # noqa
     original = [db(slots[i] if slots[i] is not None else proc) for i in range(n)]
     for i, t in enumerate(prev['threads']):
@@ -666,14 +841,33 @@ def failures(case, obs):
             yield fail(-1, 'the hub does not hold / resolve to the connections that were bound', thread=i, actual=[t.get('slot'), t.get('proc'), t['resolve']])
     for k, (t, cur) in enumerate(zip(case['sched'], obs['steps'])):
         before, after = prev['threads'][t], cur['threads'][t]
-        finished = before['phase'] != 'done' and after['phase'] == 'done'
-        # all or nothing: the table changes only in the step in which a doInTransaction returns
-        if cur['table'] != prev['table'] and not (finished and after['result'][0] == 'ret'):
-            yield fail(k, 'the committed table changed although no doInTransaction returned in this step', thread=t,
-                       kind='committed_but_raised' if finished else 'partial', before=prev['table'], after=cur['table'],
-                       result=after['result'])
+        finished = after.get('ncalls', 0) > before.get('ncalls', 0) if 'ncalls' in after else (before['phase'] != 'done' and after['phase'] == 'done')
+        wrote = after.get('nplain', 0) > before.get('nplain', 0)
+        pres = after.get('last_plain') if wrote else None
+        # all or nothing: the table changes only in the step in which a doInTransaction returns or an ordinary write outside
+        # any doInTransaction is carried out
+        if cur['table'] != prev['table'] and not (finished and after['result'][0] == 'ret') and not (wrote and pres[0] == 'ret'):
+            yield fail(k, 'the committed table changed although no doInTransaction returned and no ordinary write succeeded in this step',
+                       thread=t, kind='committed_but_raised' if finished else 'partial', before=prev['table'], after=cur['table'],
+                       result=after['result'], plain=pres)
+        if wrote:
+            w = plains_of(P[t])[after['nplain'] - 1]
+            if pres[0] == 'ret':
+                # durable at once: the independent connection sees exactly this write
+                want, created = replay_writes(prev['table'], [w])
+                if cur['table'] != want:
+                    yield fail(k, 'an ordinary write outside any doInTransaction is not in the committed table at once (or more than it is)',
+                               thread=t, kind='plain_not_durable', write=w, expected=want, actual=cur['table'])
+                if pres[1] != created:
+                    yield fail(k, 'an ordinary create did not get the next id', thread=t, kind='plain_value', expected=created, actual=pres[1])
+            else:
+                busy = [j for j, x in enumerate(prev['threads']) if j != t and x['phase'] == 'run']
+                if pres[1] != 'XLocked' or not busy:
+                    yield fail(k, 'an ordinary write outside any doInTransaction raised %s%s' % (
+                        pres[1], '' if busy else ' although no other thread is inside a doInTransaction'),
+                        thread=t, kind='plain_refused', write=w, result=pres)
         if finished:
-            body = case['bodies'][t]
+            body = calls_of(P[t])[after['ncalls'] - 1] if 'ncalls' in after else case['bodies'][t]
             r = after['result']
             if r[0] == 'ret':
                 want, created = replay_writes(prev['table'], body)
@@ -727,38 +921,60 @@ def classify(case, obs, f):
 
 def nontrivial(case, obs):
     last = obs['steps'][-1]['threads'] if obs.get('steps') else []
-    for body, th in zip(case['bodies'], last):
-        if th['phase'] == 'done' and any(s[0] != 'fail' for s in body):
+    for prog, th in zip(progs(case), last):
+        done = calls_of(prog)[:th.get('ncalls', 1 if th['phase'] == 'done' else 0)]
+        if any(s[0] != 'fail' for body in done for s in body) or th.get('nplain', 0) > 0:
             return True
     return False
 
 
 def key(case):
-    return [case['mode'], case.get('slots'), case.get('proc'), case['rows'], case['bodies'], case['sched'], case.get('cache'), case.get('poison')]
+    return [case['mode'], case.get('slots'), case.get('proc'), case['rows'], progs(case), case['sched'], case.get('cache'), case.get('poison')]
 
 
 def distribution(cases, obs):
-    d = {'mode': {}, 'threads': {}, 'results': {}, 'bodies_by_len': {}, 'commits_with_writes': 0, 'unfinished_threads': 0}
+    d = {'mode': {}, 'threads': {}, 'results': {}, 'bodies_by_len': {}, 'commits_with_writes': 0, 'unfinished_threads': 0,
+         'histories': 0, 'calls_per_thread': {}, 'plain_results': {}, 'fail_write_fail': 0}
     for c, o in zip(cases, obs):
         if not isinstance(o, dict) or 'steps' not in o or not o['steps']:
             continue
         d['mode'][c['mode']] = d['mode'].get(c['mode'], 0) + 1
-        d['threads'][str(len(c['bodies']))] = d['threads'].get(str(len(c['bodies'])), 0) + 1
-        for body, th in zip(c['bodies'], o['steps'][-1]['threads']):
-            L = str(len(body))
-            d['bodies_by_len'][L] = d['bodies_by_len'].get(L, 0) + 1
-            if th['phase'] != 'done':
-                if body or c['mode'] in ('thread', 'both'):
-                    d['unfinished_threads'] += 1
-                continue
-            r = th['result']
-            name = 'return' if r[0] == 'ret' else r[1]
-            d['results'][name] = d['results'].get(name, 0) + 1
-            if r[0] == 'ret' and any(s[0] != 'fail' for s in body):
-                d['commits_with_writes'] += 1
+        P = progs(c)
+        d['threads'][str(len(P))] = d['threads'].get(str(len(P)), 0) + 1
+        if 'progs' in c:
+            d['histories'] += 1
+        # per thread what it went through, read off the observations step by step
+        seen = [[] for _ in P]          # outcomes in order: 'ret' / 'exc' of calls, 'w' for a successful ordinary write
+        prev = o['initial']
+        for t, cur in zip(c['sched'], o['steps']):
+            b, a = prev['threads'][t], cur['threads'][t]
+            if a.get('ncalls', 0) > b.get('ncalls', 0):
+                r = a['result']
+                name = 'return' if r[0] == 'ret' else r[1]
+                d['results'][name] = d['results'].get(name, 0) + 1
+                body = calls_of(P[t])[a['ncalls'] - 1]
+                L = str(len(body))
+                d['bodies_by_len'][L] = d['bodies_by_len'].get(L, 0) + 1
+                if r[0] == 'ret' and any(s[0] != 'fail' for s in body):
+                    d['commits_with_writes'] += 1
+                seen[t].append(r[0])
+            if a.get('nplain', 0) > b.get('nplain', 0):
+                r = a['last_plain']
+                name = 'written' if r[0] == 'ret' else r[1]
+                d['plain_results'][name] = d['plain_results'].get(name, 0) + 1
+                if r[0] == 'ret':
+                    seen[t].append('w')
+            prev = cur
+        for prog, th, sn in zip(P, o['steps'][-1]['threads'], seen):
+            nc = str(len(calls_of(prog)))
+            d['calls_per_thread'][nc] = d['calls_per_thread'].get(nc, 0) + 1
+            if th.get('ncalls', 0) < len(calls_of(prog)) and (prog and (any(calls_of(prog)) or c['mode'] in ('thread', 'both'))):
+                d['unfinished_threads'] += 1
+            if any(sn[i:i + 3] == ['exc', 'w', 'exc'] for i in range(len(sn))):
+                d['fail_write_fail'] += 1
     return d
 
 
 def explain(case, obs):
     return 'mode %s, %d threads, schedule %r; last observation %r' % (
-        case['mode'], len(case['bodies']), case['sched'], obs['steps'][-1] if obs.get('steps') else obs)
+        case['mode'], len(progs(case)), case['sched'], obs['steps'][-1] if obs.get('steps') else obs)
